@@ -17,6 +17,9 @@ class Results:
 
     # -- recording -------------------------------------------------------
     def _add(self, verdict, rule, instance, detail, loc, engine):
+        detail = detail if isinstance(detail, str) else str(detail)
+        if len(detail) > 1200:          # whole symbolic matrices are not readable in a report: keep both ends
+            detail = detail[:800] + ' ... [%d characters omitted] ... ' % (len(detail) - 1100) + detail[-300:]
         self.items.append({'rule': rule, 'instance': instance, 'verdict': verdict,
                            'detail': detail, 'loc': loc, 'engine': engine})
 
